@@ -67,7 +67,7 @@ def gen_case0(rng, i):
     for _ in range(3):
         k = rng.randint(1, 4)
         cuts = sorted(rng.sample(range(0, Tn + 1), min(k + 1, Tn + 1)))
-        mode = rng.choice(['tiling', 'tiling', 'gaps', 'overlap', 'noend', 'single', 'offgrid', 'nested', 'nested_first', 'duplicate'])
+        mode = rng.choice(['tiling', 'tiling', 'gaps', 'overlap', 'noend', 'single', 'offgrid', 'nested', 'nested_first', 'duplicate', 'unsorted'])
         st = [pts[c] for c in cuts[:-1]] or [pts[0]]
         en = [pts[c] for c in cuts[1:]] or [pts[Tn]]
         if mode == 'gaps' and len(st) > 1:
@@ -84,6 +84,9 @@ def gen_case0(rng, i):
             st, en = ([inner[0], outer[0]], [inner[1], outer[1]]) if mode == 'nested' else ([outer[0], inner[0]], [outer[1], inner[1]])
         if mode == 'duplicate':
             st, en = [st[0], st[0]], [en[0], en[0]]
+        if mode == 'unsorted':
+            # a table that is not in ascending order, with a block that lies beyond the grid end listed first
+            st, en = [pts[Tn] + step, pts[Tn] + 3 * step] + st[::-1], [pts[Tn] + 3 * step, pts[Tn] + 5 * step] + en[::-1]
         for t in st + en:
             gen.check_safe(t, tz)
         d = {'start': [gen.fmt(t) for t in st], 'values': [gen.k8(rng, -5, 5) for _ in st], 'mode': mode}
